@@ -149,7 +149,7 @@ def work(arg):
     return res
 
 
-def real_zckdl(ctx, files, wl, cfg):
+def real_zckdl(ctx, files, wl, cfg, npairs=60, maxrs=(1, 2, 255), init_names=("absent", "B-zero1", "garbage", "B", "B+50", "header-only", "B-cut-last")):
     """thorough: the real zckdl tool (built from the tree, libcurl) against a loopback HTTP range server, including the
     back-off when the server refuses the number of ranges"""
     import httpd
@@ -157,14 +157,15 @@ def real_zckdl(ctx, files, wl, cfg):
     try:
         job = ["chunk 1", "timeout 60000"]
         meta = []
-        pairs = [(a, b) for b in wl if len(b) >= 2 for a in ([None] + [w for w in wl if 1 <= len(w) <= 2])][:60]
+        pairs = [(a, b) for b in wl if len(b) >= 2 for a in ([None] + [w for w in wl if 1 <= len(w) <= 2])]
+        pairs = pairs[:npairs] if npairs >= len(pairs) or npairs >= 60 else pairs[::max(1, len(pairs) // npairs)][:npairs]
         k = 0
         for aw, bw in pairs:
             b = files[(bw, cfg.name())]
             a = files[(aw, cfg.name())] if aw is not None else None
             pb = zckref.parse(b)
-            for maxr in (1, 2, 255):
-                for iname, init in [x for x in inits(a, b, pb) if x[0] in ("absent", "B-zero1", "garbage")]:
+            for maxr in maxrs:
+                for iname, init in [x for x in inits(a, b, pb) if x[0] in init_names]:
                     name = "c%d.zck" % k
                     k += 1
                     srv.files[name] = b
@@ -290,7 +291,11 @@ def run(ctx):
             ctx.violation(sig, what, case)
     if thorough:
         real_zckdl(ctx, files, [w for w in wl], combos[0][1])
-        ctx.bounds["real_zckdl"] = "zckdl (in-process main, libcurl) against a loopback range server: 60 pairs x server range limits {1, 2, 255} x 3 initial targets"
+        ctx.bounds["real_zckdl"] = "zckdl (in-process main, libcurl) against a loopback range server: 60 pairs x server range limits {1, 2, 255} x 7 initial targets"
+    else:
+        # the tool itself (its own copy of the loop, incl. the early exit for a complete target and the final truncate)
+        real_zckdl(ctx, files, [w for w in wl], combos[0][1], npairs=8, maxrs=(1, 255))
+        ctx.bounds["real_zckdl"] = "zckdl (in-process main, libcurl) against a loopback range server: 8 pairs x server range limits {1, 255} x 7 initial targets"
     ctx.sample({"old": "ab", "new": "abc", "initial_target": "absent", "limit": -1, "expect": "one body request for exactly chunk c's extent; target == new file"})
 
 
